@@ -14,7 +14,7 @@ import leafgen as lg
 import treegen as tg
 
 ID = 'C02'
-GEN = ['kernels']
+GEN = ['kernels', 'deviceset']
 PROPS = 'Props/C02.v'
 MODEL_VO = ['Model/Tree.v']
 SHARD = 40
